@@ -10,5 +10,6 @@ for p in $props; do
   out=$(./check $p --tier quick --no-evidence 2>&1); code=$?
   n=$(echo "$out" | grep -c '^VIOLATION')
   echo "== $p exit=$code violations=$n"
+  if [ $code -ne 0 ] && [ $code -ne 1 ]; then echo "$out" | tail -12; fi
   echo "$out" | grep -B1 '^VIOLATION' | grep -v '^VIOLATION' | grep -v '^--' | cut -c1-330 | head -4
 done
